@@ -437,7 +437,7 @@ def nullable(n):
 
 
 def leaves(rng=None):
-    L = [("str", l) for l in LITS] + [("insens", b"a"), ("insens", b"Ab"), ("range", 0x61, 0x63), ("range", 0x80, 0x7FF),
+    L = [("str", l) for l in LITS] + [("insens", b"a"), ("insens", b"Ab"), ("insens", b"-"), ("insens", b"a_1"), ("insens", b"[x]@"), ("range", 0x61, 0x63), ("range", 0x80, 0x7FF),
                                       ("charby", "any"), ("charby", "digit"), ("charby", "alpha"), ("skip", 1), ("skip", 2),
                                       ("skip_until", [b"a"]), ("skip_until", [b"ab", b"b"]), ("skip_until", [b"a", b"b", b"c"]),
                                       ("skip_until", [b"a", b"b", b"c", b"d"]), ("skip_until", []), ("skip_until", [b"ab", b"ac"]), ("skip_until", [b"ac", b"ab"]), ("skip_until", ["é".encode(), "ü".encode()]), ("skip_until", [b"ab", b"ac", b"aa"]), ("skip_until", [b"a", b"ab"]),
